@@ -117,6 +117,10 @@ def run(ctx):
         e = list(e0); e[5] = e0[5] + ';' + hexs(b'X-New') + '=' + hexs(b'1'); variants.append(e)
         e = list(e0); e[5] = ';'.join(p for p in e0[5].split(';') if not p.startswith(hexs(b'Foo'))); variants.append(e)
         e = list(e0); e[5] = e0[5].replace(hexs(b'Bar') + '|' + hexs(b'Baz'), hexs(b'Bar,Baz')); variants.append(e)   # same joined value: must still verify
+        # white space / separators added to or moved between the values of a repeated field (the joined value changes: must fail)
+        for vals in ([b'Bar', b' Baz'], [b'Bar ', b'Baz'], [b'Bar\t', b'Baz'], [b'Bar', b'Baz\r\n'], [b' Bar', b'Baz'], [b'Bar,', b'Baz'], [b'Ba', b'rBaz'], [b'Baz', b'Bar'],
+                     [b'Bar', b'Baz', b''], [b'Bar', b'', b'Baz'], [b'Bar,Baz', b''], [b'Bar'], [b'Bar', b'Baz', b'Baz']):
+            e = list(e0); e[5] = e0[5].replace(hexs(b'Bar') + '|' + hexs(b'Baz'), '|'.join(hexs(v) for v in vals)); variants.append(e)
         if e0[0] != 'b3':
             e = list(e0); e[3] = hdrs([(b'Accept', [b'text/html'])]); variants.append(e)
         for other in VERS:
